@@ -45,7 +45,7 @@ pub fn hostile_value(depth: u32) -> BoxedStrategy<MVal> {
     ]
     .boxed()
 }
-fn hostile_ctx(names: &'static [&'static str]) -> BoxedStrategy<Ctx> {
+pub fn hostile_ctx(names: &'static [&'static str]) -> BoxedStrategy<Ctx> {
     prop::collection::vec(prop::option::weighted(0.9, hostile_value(3)), names.len()).prop_map(move |v| v.into_iter().enumerate().filter_map(|(i, x)| x.filter(|x| !x.is_undefined()).map(|x| (names[i].to_string(), x))).collect()).boxed()
 }
 fn big_values() -> Vec<MVal> {
@@ -64,8 +64,8 @@ fn big_values() -> Vec<MVal> {
 // ------------------------------------------------------------------------------------------
 // hostile expressions: every built-in at every operand position with arbitrary keyword arguments
 
-const HVARS: &[&str] = &["h0", "h1", "h2", "h3", "h4", "h5"];
-fn hexpr() -> BoxedStrategy<E> {
+pub const HVARS: &[&str] = &["h0", "h1", "h2", "h3", "h4", "h5"];
+pub fn hexpr() -> BoxedStrategy<E> {
     let leaf = prop_oneof![8 => prop::sample::select(HVARS).prop_map(|n| E::Var(n.to_string())), 2 => (0i64..40).prop_map(E::Int), 1 => Just(E::Float(0.5)), 2 => prop::sample::select(vec!["", "a", ",", "<", "ceil", "k", "é", " "]).prop_map(|s| E::Str(s.to_string())), 1 => any::<bool>().prop_map(E::Bool), 1 => Just(E::None), 1 => Just(E::Var("__tera_context".into())), 1 => Just(E::Var("unbound".into()))];
     let filters: Vec<&'static super::c17::Builtin> = BUILTINS.iter().filter(|b| b.kind == BK::Filter).collect();
     let tests: Vec<&'static super::c17::Builtin> = BUILTINS.iter().filter(|b| b.kind == BK::Test).collect();
